@@ -193,9 +193,9 @@ func (f *c08Farm) script(ep *farm.Endpoint, src net.Addr, req []byte, seq uint64
 func c08(c *Ctx) {
 	c.Res.Rule = "plans of N goroutines x K calls (mixed operations carrying unique ids, same and different controllers, UDP / TCP / broadcast paths mixed in one client, 1-3 clients, bind port 0 and fixed) run against an echoing farm whose reply delays are drawn adversarially from {0, 1ms, 0.3T, 0.7T}; GetDevices and a Listen start/stream/stop cycle run alongside; oracles: result == echo(own request) whenever the farm measurably answered within 0.85T of receiving the request; served-in-turn scenario on a fixed port; linearizability (porcupine) of PutCard/GetCardByID/DeleteCard histories against a stateful simulated controller, per (controller, card); in -race batches the Go race detector watches the whole run; distinct = distinct interleaving signatures (order of call-start / farm-recv / farm-send / call-end events per plan) + distinct (op, path, port mode) keys"
 	T := 300 * time.Millisecond
-	plans := c.N(4, 24)
+	plans := c.N(8, 30)
 	if c.Mode == "race" {
-		plans = c.N(3, 16)
+		plans = c.N(6, 20)
 	}
 	for p := 0; p < plans; p++ {
 		c08Plan(c, p, T)
@@ -495,6 +495,21 @@ func c08Plan(c *Ctx, planNo int, T time.Duration) {
 			exp.Fields["SystemDateTime"] = rm.Exp{Mode: rm.Must, V: rm.DateTimeVal(want["SystemDate"].Y, want["SystemDate"].Mo, want["SystemDate"].D, want["SystemTime"].H, want["SystemTime"].Mi, want["SystemTime"].S)}
 		}
 		if cl.out.Err != "" {
+			// the obligation needs the request to have been noticed promptly: the library's clock starts when the call
+			// gets its turn (call start, or the moment the previous holder of a fixed port returned), the farm's when
+			// its goroutine reads the request; on an overloaded host the two drift apart
+			turn := cl.start
+			if fixed {
+				for _, o := range all {
+					if o != cl && o.end <= m.recv && o.end > turn {
+						turn = o.end
+					}
+				}
+			}
+			if time.Duration(m.recv-turn) > T/10 {
+				c.Res.Inconcl(fmt.Sprintf("the farm noticed a request %.0f ms after the call got its turn (host overloaded): a failed call is not judged", float64(m.recv-turn)/1e6))
+				continue
+			}
 			key := "C08:lost-reply:" + cl.ctrl.path
 			if fixed && time.Duration(m.recv-cl.start) > 20*time.Millisecond {
 				key = "C08:early-timeout-after-queueing"
@@ -665,6 +680,16 @@ func c08ServedInTurn(c *Ctx, T time.Duration) {
 		}
 		if sendT == 0 || time.Duration(sendT-recvT) > T*85/100 {
 			c.Res.Inconcl("served-in-turn: farm answered late")
+			continue
+		}
+		prevEnd := start
+		for i := 0; i < k-1; i++ {
+			if ends[i] <= recvT && ends[i] > prevEnd {
+				prevEnd = ends[i]
+			}
+		}
+		if results[k-1].Err != "" && time.Duration(recvT-prevEnd) > T/10 {
+			c.Res.Inconcl("served-in-turn: the farm noticed the request late (host overloaded)")
 			continue
 		}
 		if results[k-1].Err != "" {
